@@ -788,6 +788,87 @@ def path_entry_presence(ctx: Ctx, v: "LocalView", rule: str) -> int:
     return n
 
 
+def dbfs_paths_validated(ctx: Ctx, rule: str) -> int:
+    """DBFS store: before a path is turned into locations (the copy under <data_dir>/<path>, the redirection under <data_dir>/<reserved>/<path>), paths
+    with '.' / '..' segments and paths that start with the reserved directory of the redirections are refused (a coded raise dominates every
+    effect on a path-derived location)"""
+    rep = ctx.report
+    prog = ctx.prog
+    cls = prog.cls("dds.codecs.databricks.DBFSStore")
+    if cls is None:
+        raise AnchorError("dds.codecs.databricks.DBFSStore not found")
+    m = StoreModel(prog, cls, ctx._types)
+    n = 0
+    for method in ("sync_paths", "fetch_paths"):
+        f = cls.methods.get(method)
+        if f is None:
+            continue
+        effs = [e for e in m.effects_of(method) if e.kind in ("PUT", "HEAD", "CP", "RM") and (mentions_sym(e.term, "PATH") or (e.src is not None and mentions_sym(e.src, "PATH")))]
+        # the reserved first segment: the literal that the redirection location inserts before the path
+        reserved = set()
+        for e in effs:
+            for t in ([e.term] if e.kind in ("PUT", "HEAD") else []):
+                for x in _walk_terms(t):
+                    if isinstance(x, tuple) and len(x) == 2 and x[0] == "lit" and isinstance(x[1], str) and x[1].strip("/") and x[1].strip("/") not in (".", ""):
+                        reserved.add(x[1].strip("/"))
+        cfg = cfg_of(f)
+        doms: List[Any] = []
+        seen_consts: Set[str] = set()
+
+        def guard_consts(g: Func, r: ast.Raise) -> Set[str]:
+            gc = cfg_of(g)
+            _o, atoms = pass_outcomes(gc, g.module, r)
+            out: Set[str] = set()
+            for a in atoms:
+                out |= _str_consts(g, a)
+            return out
+
+        for r in [x for x in f.own_nodes() if isinstance(x, ast.Raise)]:
+            cs = guard_consts(f, r)
+            if {".", ".."} <= cs and (reserved & cs):
+                doms += pass_outcomes(cfg, f.module, r)[0]
+                seen_consts |= cs
+        for c in [x for x in f.own_nodes() if isinstance(x, ast.Call)]:
+            fs, _ = prog.callees(f, c, ctx._types)
+            for h in fs:
+                if h is f or not h.module.name.startswith("dds"):
+                    continue
+                for r in [x for x in h.own_nodes() if isinstance(x, ast.Raise)]:
+                    cs = guard_consts(h, r)
+                    if {".", ".."} <= cs and (reserved & cs):
+                        doms += done_nodes(cfg, c)
+                        seen_consts |= cs
+        n += 1
+        desc = f"DBFS {method}: paths with '.' / '..' segments or under the reserved directory {sorted(reserved)} are refused before a location is built from them"
+        sites = []
+        for e in effs:
+            call = getattr(e, "root_node", None) or e.node
+            sites += [(call, e)]
+        bad_site = None
+        for call, e in sites:
+            w = dominated(ctx, f, call, doms) if doms else ["no refusal of such paths in this method (nor in a helper it calls)"]
+            if w is not None:
+                bad_site = (call, e, w)
+                break
+        if not effs:
+            rep.unknown(rule, f.qname, "no effect on a path-derived location found", f.loc())
+        elif bad_site is None:
+            rep.ok(rule, f.qname, desc, f.loc())
+        else:
+            call, e, w = bad_site
+            rep.bad(rule, f.qname, desc, f.loc(call), [f"{f.loc(call)}: {e.kind}({show(e.term)}) is reached without such a refusal"] + w[-5:] + [
+                    "'/_dds_meta/x' is the redirection of '/x' (under the full commit the copy of one overwrites the record of the other); '/a/./b' and '/a/b' share their locations; "
+                    "'/../../x' is written outside the store directories"], f"dbfs-unvalidated:{method}", what=f"DBFS {method} builds locations from paths it should refuse")
+    return n
+
+
+def _walk_terms(t: Any):
+    yield t
+    if isinstance(t, tuple):
+        for x in t[1:]:
+            yield from _walk_terms(x)
+
+
 def record_rewritten_unless_current(ctx: Ctx, rule: str) -> int:
     """DBFS sync_paths: an iteration ends without writing the redirect record of its path only after a comparison showed that the
     record read from the store already names the key being committed"""
@@ -1327,3 +1408,51 @@ def interleaving_sweep(ctx: Ctx, v: LocalView, rule: str) -> int:
     except cs.Unknown as u:
         rep.unknown(rule, v.cls.qname, f"effect sequence not interpretable by the typestate model: {u}", v.cls.module.relpath)
     return total
+
+
+def one_spelling_per_path(ctx: Ctx, rule: str) -> int:
+    """`DDSPathUtils.create` gives one DDSPath per sequence of non-empty segments: '/a//b', '/a/b/' and '/a/b' are one path.  The local and
+    DBFS stores drop empty segments when they place a path while the memory store keys by the text, so two spellings would be one
+    path in one store and two in another.  Decided by abstract evaluation of `create` on sample spellings."""
+    from ..absint import Evaluator, Const
+    rep = ctx.report
+    prog = ctx.prog
+    f = prog.func("dds.structures_utils.DDSPathUtils.create")
+    if f is None:
+        raise AnchorError("dds.structures_utils.DDSPathUtils.create not found")
+    groups = [["/a/b", "/a//b", "/a/b/", "//a/b"], ["/x", "//x", "/x//"], ["/p/q/r", "/p//q///r/"]]
+    bad: List[str] = []
+    und: List[str] = []
+    for grp in groups:
+        seen = {}
+        for s in grp:
+            try:
+                outs = Evaluator(prog).run(f, [Const(s)])
+            except Exception as e:  # the evaluator declines
+                und.append(f"create({s!r}): {type(e).__name__}: {e}")
+                continue
+            vals = set()
+            for o in outs:
+                if o.kind == "return" and isinstance(getattr(o.value, "v", None), str):
+                    vals.add(o.value.v)
+                elif o.kind == "raise":
+                    vals.add("<refused>")
+                else:
+                    und.append(f"create({s!r}): outcome {o.kind} {o.value!r} not a constant")
+            if len(vals) == 1:
+                seen[s] = next(iter(vals))
+            elif vals:
+                und.append(f"create({s!r}): several outcomes {sorted(vals)}")
+        accepted = {s: v for s, v in seen.items() if v != "<refused>"}
+        if len(set(accepted.values())) > 1:
+            bad.append("spellings of one path give different paths: " + ", ".join(f"create({s!r}) = {v!r}" for s, v in accepted.items()))
+    desc = "DDSPathUtils.create gives one path per sequence of non-empty segments (empty segments are dropped or refused)"
+    if bad:
+        rep.bad(rule, f.qname, desc, f.loc(), bad + ["the local and DBFS stores place a path by its non-empty segments, the memory store by its text: keep('/a/b', f); "
+                "keep('/a//b', g); load('/a/b') serves g from the local store and f from the memory store"], "spelling",
+                what="create keeps empty path segments")
+    elif und:
+        rep.unknown(rule, f.qname, desc, f.loc(), und[:3])
+    else:
+        rep.ok(rule, f.qname, desc + f" ({sum(len(g) for g in groups)} sample spellings in {len(groups)} groups)", f.loc())
+    return 1
